@@ -144,6 +144,7 @@ class C09(Prop):
         "AwProofs.C09.isect_no_double",
         "AwProofs.C09.isect_unreachable_branch_dead",
         "AwProofs.C09.isect_total_duration",
+        "AwProofs.C09.isect_common_time",
         "AwProofs.C09.union_never_raises",
         "AwProofs.C09.union_sorted_gapped",
         "AwProofs.C09.union_cover",
